@@ -127,8 +127,12 @@ def _mkstart(w):
                 m_.group_taxa()
             except Exception:
                 pass
+    # a fitted ridge-regression model: its hyper-parameters are a dict holding arrays, lists and nested dicts
+    from pybrops.model.gmod.rrBLUPModel0 import rrBLUPModel0
+    rr = rrBLUPModel0(beta=numpy.array(gm.beta, copy=True), u_misc=None, u_a=numpy.array(gm.u_a, copy=True), trait=gm.trait, method="ML", model_name="rr",
+                      hyperparams={"shrinkage": numpy.array([0.5, 2.0]), "train_log": [1.0, 2.0], "grid": {"lo": numpy.array([0.1]), "n": 3}})
     out = [{"pg": pg, "k": 0}, {"pg": copy.deepcopy(pg), "g4": g4, "k": 1}, {"tbl": numpy.arange(3.0), "k": 2},
-           {"bv": bv, "k": 3}, {"gm": gm, "k": 4}]
+           {"bv": bv, "k": 3}, {"gm": gm, "rr": rr, "k": 4}]
     for i in w.get("empty", []):
         out[i] = {}
     return out
@@ -145,6 +149,8 @@ MUTABLE = ("mat", "location", "scale", "u_a", "beta", "taxa_grp", "vrnt_xoprob",
 def _poke(v, serial, sign):
     """Update one numeric array attribute of a library object in place (what an operator that re-centres, re-trains or
     re-labels the object it was handed does); which attribute depends on the call serial."""
+    if serial % 3 == 0 and _poke_hyper(v, serial // 3, sign):
+        return True
     cands = [a for a in MUTABLE if isinstance(getattr(v, a, None), numpy.ndarray) and getattr(v, a).size and getattr(v, a).dtype.kind in "fiu"]
     if not cands:
         return False
@@ -154,6 +160,38 @@ def _poke(v, serial, sign):
         arr.flat[ix] += 1.0 * sign
     else:
         arr.flat[ix] ^= 1
+    return True
+
+
+def _deeprepr(x):
+    if isinstance(x, dict):
+        return "{" + ",".join("%r:%s" % (k, _deeprepr(x[k])) for k in sorted(x, key=str)) + "}"
+    if isinstance(x, (list, tuple)):
+        return "[" + ",".join(_deeprepr(v) for v in x) + "]"
+    if isinstance(x, numpy.ndarray):
+        return "nd%s%s" % (x.shape, x.tolist())
+    return repr(x)
+
+
+def _poke_hyper(v, serial, sign):
+    """Update a mutable value inside the model's hyper-parameter dict in place (what re-training on the spot does)."""
+    hp = getattr(v, "hyperparams", None)
+    if not isinstance(hp, dict) or not hp:
+        return False
+    keys = sorted(hp, key=str)
+    x = hp[keys[serial % len(keys)]]
+    if isinstance(x, numpy.ndarray) and x.size:
+        x.flat[0] += 1.0 * sign
+    elif isinstance(x, list):
+        x.append(float(serial))
+    elif isinstance(x, dict) and x:
+        k = sorted(x, key=str)[0]
+        if isinstance(x[k], numpy.ndarray) and x[k].size:
+            x[k].flat[0] += 1.0 * sign
+        else:
+            x["touched"] = serial
+    else:
+        return False
     return True
 
 
@@ -167,6 +205,9 @@ def _vdig(h, v):
             h.update(a.encode())
             if x is not None:
                 _vdig(h, numpy.asarray(x))
+        hp = getattr(v, "hyperparams", None)
+        if isinstance(hp, dict):
+            h.update(_deeprepr(hp).encode())
     else:
         h.update(repr(v).encode())
 
